@@ -1,5 +1,7 @@
 import KmipModel.ExpectSkel
 import KmipGen.Skeleton
+import KmipGen.Dataflow
+import KmipModel.ExpectFlow
 /-
   C15, generated obligations: where the deadline calls sit in `Server.serve`, `Client.Connect` and `Client.Send`
   (regenerated from /repo on every run) is what the models assume: guarded by `!= 0`, fresh `time.Now().Add(..)`,
@@ -9,4 +11,9 @@ namespace Kmip
 theorem GenC15_serve_skeleton : KmipGen.skel_Server_serve = ExpectSkel.skel_Server_serve := by decide
 theorem GenC15_client_send_skeleton : KmipGen.skel_Client_Send = ExpectSkel.skel_Client_Send := by decide
 theorem GenC15_client_connect_skeleton : KmipGen.skel_Client_Connect = ExpectSkel.skel_Client_Connect := by decide
+/-- the deadline calls with their arguments: `time.Now().Add(s.ReadTimeout)` for reads, `time.Now().Add(s.WriteTimeout)` for writes
+    (serve), `c.WriteTimeout` / `c.ReadTimeout` (Client.Send) - which timeout arms which deadline -/
+theorem GenC15_serve_dataflow : KmipGen.flow_Server_serve = ExpectFlow.flow_Server_serve := by decide +kernel
+theorem GenC15_send_dataflow : KmipGen.flow_Client_Send = ExpectFlow.flow_Client_Send := by decide +kernel
+
 end Kmip
